@@ -35,6 +35,8 @@ pub enum Step {
     Drop(u8),
     /// CancelRequest with (a variant of) that client's key
     Cancel(u8, Variant),
+    /// (only with idle_client_in_transaction_timeout) the client sits in its transaction until the pooler ends it
+    IdleOut(u8),
 }
 
 #[derive(Clone, Debug, Serialize, Deserialize)]
@@ -43,8 +45,13 @@ pub struct Case {
     pub pool_size: u8,
     pub session_mode: bool,
     pub workers: u8,
+    /// idle_client_in_transaction_timeout = 700 ms
+    #[serde(default)]
+    pub idle_timeout: bool,
     pub steps: Vec<Step>,
 }
+
+const IDLE_MS: u64 = 700;
 
 pub struct WirePart;
 
@@ -60,7 +67,7 @@ impl Part for WirePart {
         true
     }
     fn rule(&self) -> String {
-        "2..4 clients on a pool of 1..3 connections, transaction or session mode; histories of 3..14 steps over {statement held at the backend, release, BEGIN, COMMIT, socket drop (idle, inside a transaction, with a statement in flight), CancelRequest with a client's exact key / same pid wrong secret / wrong pid same secret / random key}; the model tracks which backend connection each client currently borrows; oracle: after each CancelRequest has been fully processed (pgcat closed the cancel socket) the backends have received exactly one CancelRequest carrying that connection's own BackendKeyData if the key is exact and the client borrows a connection, and none otherwise. Non-trivial = a cancel sent while at least two clients had work in flight, or with the key of a client that no longer holds a connection".into()
+        "2..4 clients on a pool of 1..3 connections, transaction or session mode; histories of 3..14 steps over {statement held at the backend, release, BEGIN, COMMIT, socket drop (idle, inside a transaction, with a statement in flight), the pooler ending a transaction after idle_client_in_transaction_timeout (30% of the transaction-mode cases), CancelRequest with a client's exact key / same pid wrong secret / wrong pid same secret / random key}; the model tracks which backend connection each client currently borrows; oracle: after each CancelRequest has been fully processed (pgcat closed the cancel socket) the backends have received exactly one CancelRequest carrying that connection's own BackendKeyData if the key is exact and the client borrows a connection, and none otherwise. Non-trivial = a cancel sent while at least two clients had work in flight, or with the key of a client that no longer holds a connection".into()
     }
     fn cases(&self, tier: Tier) -> u64 {
         tier.pick(1_600, 20_000)
@@ -74,9 +81,22 @@ impl Part for WirePart {
             1 => (0u8..4).prop_map(Step::Commit),
             2 => (0u8..4).prop_map(Step::Drop),
             6 => ((0u8..4), variant).prop_map(|(c, v)| Step::Cancel(c, v)),
+            1 => (0u8..4).prop_map(Step::IdleOut),
         ];
-        (2u8..=4, 1u8..=3, prop::bool::weighted(0.3), prop_oneof![Just(1u8), Just(2u8), Just(4u8)], prop::collection::vec(step, 3..15))
-            .prop_map(|(clients, pool_size, session_mode, workers, steps)| Case { clients, pool_size, session_mode, workers, steps })
+        (2u8..=4, 1u8..=3, prop::bool::weighted(0.3), prop_oneof![Just(1u8), Just(2u8), Just(4u8)], prop::bool::weighted(0.3), prop::collection::vec(step, 3..15), (any::<u16>(), 0u8..4, 0u8..4))
+            .prop_map(|(clients, pool_size, session_mode, workers, idle_timeout, steps, (at, k, other))| {
+                let idle_timeout = idle_timeout && !session_mode;
+                // the step only exists where the timeout is configured
+                let mut steps: Vec<Step> = steps.into_iter().filter(|s| idle_timeout || !matches!(s, Step::IdleOut(_))).collect();
+                if idle_timeout {
+                    // make sure the interesting history occurs: a transaction is ended by the timeout, somebody else borrows
+                    // a connection, then the timed-out client's key is used
+                    let pos = crate::engine::pick(at, steps.len() + 1);
+                    let block = vec![Step::Begin(k), Step::IdleOut(k), Step::Held(other), Step::Cancel(k, Variant::Exact)];
+                    steps.splice(pos..pos, block);
+                }
+                Case { clients, pool_size, session_mode, workers, idle_timeout, steps }
+            })
             .boxed()
     }
     fn run(&self, c: &Case, ctx: &mut WorkerCtx) -> Outcome {
@@ -100,6 +120,9 @@ fn config(mocks: &[crate::mock::MockServer], c: &Case) -> PgcatConfig {
     let mut cfg = PgcatConfig::new();
     cfg.set_general("worker_threads", &c.workers.to_string());
     cfg.set_general("connect_timeout", "3000");
+    if c.idle_timeout {
+        cfg.set_general("idle_client_in_transaction_timeout", &IDLE_MS.to_string());
+    }
     let servers = vec![ServerDef { host: mocks[0].ip.clone(), port: mocks[0].port, role: "primary".into() }];
     let mut pool = pgc::simple_pool("db", "u", "pw", c.pool_size as u32, servers);
     if c.session_mode {
@@ -157,6 +180,8 @@ async fn run_case(c: &Case, ctx: &mut WorkerCtx) -> Outcome {
     }
     let keys: Vec<(i32, i32)> = clis.iter().map(|c| (c.backend_pid, c.backend_key)).collect();
     let mut st: Vec<St> = vec![St::Idle; n];
+    // when each client last became idle-in-transaction (only meaningful with idle_timeout)
+    let mut idle_since: Vec<std::time::Instant> = vec![std::time::Instant::now(); n];
     let holders = |st: &Vec<St>| st.iter().filter(|s| matches!(s, St::InFlight(..) | St::InTxn(_) | St::Owns(_))).count();
     let mut cancels_seen = 0usize;
     let conn_of = |env: &Env, t: Tag| -> Option<u64> { env.shared.find_tag(t).map(|e| e.conn) };
@@ -164,6 +189,14 @@ async fn run_case(c: &Case, ctx: &mut WorkerCtx) -> Outcome {
 
     'steps: for (si, step) in c.steps.iter().enumerate() {
         o.sub_evaluations += 1;
+        if c.idle_timeout && !matches!(step, Step::IdleOut(_)) {
+            // a client that has been idle in its transaction for more than half the timeout may be ended by the pooler at any
+            // moment: the model cannot say what it holds, so the history stops here (nothing is judged after this point)
+            if (0..n).any(|j| matches!(st[j], St::InTxn(_)) && idle_since[j].elapsed() > Duration::from_millis(IDLE_MS / 2)) {
+                o.label("stopped:idle-in-transaction-too-long");
+                break 'steps;
+            }
+        }
         match step {
             Step::Held(k) => {
                 let i = *k as usize % n;
@@ -198,6 +231,7 @@ async fn run_case(c: &Case, ctx: &mut WorkerCtx) -> Outcome {
                         break 'steps;
                     }
                     if in_txn {
+                        idle_since[i] = std::time::Instant::now();
                         st[i] = St::InTxn(conn);
                     } else if c.session_mode {
                         st[i] = St::Owns(conn);
@@ -226,6 +260,7 @@ async fn run_case(c: &Case, ctx: &mut WorkerCtx) -> Outcome {
                     o.inconclusive = Some(format!("step {}: BEGIN of c{} ended {:?}", si, i + 1, e));
                     break 'steps;
                 }
+                idle_since[i] = std::time::Instant::now();
                 match conn_of(&env, t) {
                     Some(conn) => st[i] = St::InTxn(conn),
                     None => {
@@ -272,6 +307,28 @@ async fn run_case(c: &Case, ctx: &mut WorkerCtx) -> Outcome {
                 tokio::time::sleep(Duration::from_millis(30)).await;
                 st[i] = St::Closed;
                 o.label("client_dropped");
+            }
+            Step::IdleOut(k) => {
+                let i = *k as usize % n;
+                if !c.idle_timeout || !matches!(st[i], St::InTxn(_)) {
+                    continue;
+                }
+                // other clients idle in a transaction would time out as well: only when this is the only one
+                if (0..n).any(|j| j != i && matches!(st[j], St::InTxn(_))) {
+                    continue;
+                }
+                let (msgs, e) = clis[i].read_until_ready(Duration::from_millis(IDLE_MS * 4)).await;
+                let told = msgs.iter().any(|m| m.code == b'E');
+                if !told {
+                    o.inconclusive = Some(format!("step {}: c{} was not told about the idle-in-transaction timeout ({:?})", si, i + 1, e));
+                    break 'steps;
+                }
+                if !barrier(&mut clis[i]).await {
+                    o.inconclusive = Some("barrier failed after idle-in-transaction timeout".into());
+                    break 'steps;
+                }
+                st[i] = St::Idle;
+                o.label("idle_in_transaction_timeout");
             }
             Step::Cancel(k, v) => {
                 let i = *k as usize % n;
